@@ -387,3 +387,41 @@ def p_scope_marker(I, args, kwargs, node):
 
 
 PRIMS['scope_marker'] = p_scope_marker
+
+
+# ---------------------------------------------------------------------------------------
+# chains of events on opaque objects (utils._resolve_dotted)
+# ---------------------------------------------------------------------------------------
+def p_ext_last_ok(I, args, kwargs, node):
+    """result of the LAST call `name` that returned (did not raise)"""
+    nm = _m.concretise(args[0])
+    rs = [r for r in I.ghost.get('ext_trace', []) if r['name'] == nm and 'result' in r and not r['raised']]
+    return rs[-1]['result'] if rs else _no_such('result')
+
+
+def p_ext_ok_args(I, args, kwargs, node):
+    """tuple of the j-th arguments of the calls `name` that returned, in order"""
+    nm, j = [_m.concretise(a) for a in args]
+    return VTuple([r['args'][j] for r in I.ghost.get('ext_trace', [])
+                   if r['name'] == nm and not r['raised'] and j < len(r['args'])])
+
+
+def p_ext_chain(I, args, kwargs, node):
+    """ext_chain('getattr', 'import'): every call `getattr` is made on the object found so far --
+    the result of the first call `import`, then the result of each `getattr` that returned"""
+    from .values import ident
+    step, start = [_m.concretise(a) for a in args]
+    cur, conj = None, []
+    for r in I.ghost.get('ext_trace', []):
+        if r['name'] == start and cur is None and not r['raised']:
+            cur = r['result']
+        elif r['name'] == step:
+            if cur is None:
+                return VBool(False)
+            conj.append(ident(r['args'][0], cur))
+            if not r['raised']:
+                cur = r['result']
+    return VBool(z3.And(conj) if conj else z3.BoolVal(True))
+
+
+PRIMS.update({'ext_last_ok': p_ext_last_ok, 'ext_ok_args': p_ext_ok_args, 'ext_chain': p_ext_chain})
